@@ -20,7 +20,7 @@ CLAIMED = {
         text="Real Send and Receive are run against each other over an instrumented in-memory stream for every (source tree, prior "
              "destination) pair of a bounded universe and for seeded random trees (all entry types, hard-link groups, xattrs, sizes around the "
              "32KiB chunk, names sorting differently bytewise vs path-wise) in dirty and merge mode; TLC validates each recorded execution "
-             "against the property-layer predicates Converged / Overlay of spec/SyncOutcome.tla evaluated on independent snapshots and the STAT log.",
+             "against the property-layer predicates Converged / Overlay of spec/SyncOutcome.tla evaluated on independent snapshots and the STAT log. Model -> code: the 42 (destination entry, incoming stat) pairs of spec/DiskWriterMC.tla are written by TLC with the outcome of the model's run and performed on the real DiskWriter (spec/DWTrace.tla compares and evaluates the model's invariants on the real outcome).",
         design_ref="DESIGN.md section 6 C01",
         note=_SYNC_NOTE,
         technique="TLA+ property layer (SyncOutcome, SyncTrace) + TLC trace validation of real Send/Receive executions"),
@@ -64,7 +64,7 @@ CLAIMED = {
              "no unchanged path reported, top-most deletes reported, digest = (header of the stat as sent, bytes now stored), parent before "
              "child, delete before re-add. The ContentHasher is a transparent recorder so digests decompose into comparable fields. "
              "spec/DiffMergeMC.tla transcribes the merge loop of doubleWalkDiff with its rmdir register and TLC proves the clauses for all 20736 "
-             "tree pairs of a bounded universe (names a, a-b), with a sanity configuration that must be rejected.",
+             "tree pairs of a bounded universe (names a, a-b), with a sanity configuration that must be rejected. Model -> code: the 28561 (old destination, source) pairs of spec/DiffMergeMC.tla are written by TLC with the changes the algorithm model emits and run as real transfers (quick tier: every 7th); the notified (kind, path) pairs must be exactly those.",
         design_ref="DESIGN.md section 6 C05",
         note=_SYNC_NOTE,
         technique="TLA+ property layer (Notify) + TLC trace validation of real sync executions with a transparent hasher"),
@@ -116,7 +116,7 @@ CLAIMED = {
              "that separates the known finding (incremental matcher != naive verdict) from any other divergence. spec/FilterWalkMC.tla transcribes "
              "filterFS.Walk (incremental matcher with its skip rule, both pruning shortcuts, parentDirs stack, lazy ancestors) with a TLA+ "
              "semantics of the pattern sub-language and TLC proves on every pattern list of the bounded universe that pruning is unobservable and "
-             "that only the matcher can make the walk diverge; the pinned double-strip variant must be rejected.",
+             "that only the matcher can make the walk diverge; the pinned double-strip variant must be rejected. Model -> code: the 7308 pattern lists of spec/FilterWalkMC.tla are written by TLC with the algorithm model's output and walked by the real filterFS.Walk, which must report exactly that.",
         design_ref="DESIGN.md section 6 C10",
         note="Trusted: TLC; moby/patternmatcher for single-pattern glob semantics; bounded pattern sub-language and seeded random cases.",
         technique="TLA+ reference filter (FilterRef) + TLC trace validation of real filtered walks with a library-derived hit matrix"),
@@ -178,7 +178,7 @@ CLAIMED = {
              "chains, cycles, links in intermediate components, dangling) and request lists (literal, non-existent, wildcards), followed by a real "
              "transfer with those follow-paths; TLC resolves every request chroot-style on the tree model (spec/Trees!ResolveFrom, FollowRef) and "
              "checks termination, sortedness, that no element lies inside another, that every traversed symlink and every final location is "
-             "covered, emptiness when the root is reached, and that each request resolves to the same entry and bytes in the transferred copy.",
+             "covered, emptiness when the root is reached, and that each request resolves to the same entry and bytes in the transferred copy. Model -> code: the 48600 (tree, request list) cases of spec/ResolverMC.tla are written by TLC with the algorithm model's result; the real FollowLinks must return exactly that list (quick tier: every 6th).",
         design_ref="DESIGN.md section 6 C18",
         note="Trusted: TLC; the harness snapshotter; ext4 as root. Wildcard requests are judged structurally only.",
         technique="TLA+ chroot-style resolver and coverage predicates (FollowRef) + TLC trace validation of real FollowLinks runs and follow-path transfers"),
@@ -190,7 +190,7 @@ CLAIMED = {
              "(listing aside) converges to the projection 'selected entries plus needed ancestors', and that content was requested only for, "
              "and for all needed, selected regular files, and that no entry is applied twice. spec/MetaStackMC.tla transcribes the replay logic "
              "(STAT index, ancestor stack, forwarded sequence) and TLC proves 'forwarded = projection' and 'ids = STAT positions' for all "
-             "parent-closed trees over a six-path universe and all selectors; two pinned-tree variants must be rejected.",
+             "parent-closed trees over a six-path universe and all selectors; two pinned-tree variants must be rejected. Model -> code: the 387 (stream, selector) cases of spec/MetaStackMC.tla are written by TLC with what the model forwards and records; the destination and the ids on the wire of the real transfer must be exactly those.",
         design_ref="DESIGN.md section 6 C19",
         note=_SYNC_NOTE + " The listing is decoded by the harness with the vtproto decoder and compared via a canonical stat hash.",
         technique="TLA+ property layer (Projection / MetaClauses in SyncTrace, SyncOutcome) + TLC trace validation of real metadata-only transfers"),
